@@ -60,8 +60,9 @@ _P = None       # per-process world state (set by install)
 
 
 class _ProcState:
-    def __init__(self, rank, size, inboxes, sched, hosts):
+    def __init__(self, rank, size, inboxes, sched, hosts, flags=None):
         self.rank, self.size, self.inboxes = rank, size, inboxes
+        self.flags = flags            # shared with the launcher: [blocked?] * size + [messages received] * size
         self.sched = dict(sched or {})
         self.mode = self.sched.get("mode", "eager")
         self.policy = self.sched.get("policy", "fifo")
@@ -133,7 +134,13 @@ class _ProcState:
                 if m[3] is not None and m[2] != _T_ACK:       # synchronous send: tell the sender that it was matched
                     self.post(cid, m[1], _T_ACK, b"", m[3])
                 return m[1], m[2], m[4]
-            self.pending.append(self.inboxes[self.rank].get())
+            if self.flags is not None:          # blocked on an empty inbox (the launcher recognises a deadlocked world by this)
+                self.flags[self.rank] = 1
+            msg = self.inboxes[self.rank].get()
+            if self.flags is not None:
+                self.flags[self.rank] = 0
+                self.flags[self.size + self.rank] += 1
+            self.pending.append(msg)
 
 
 def _comm_by_id(cid):
@@ -339,10 +346,10 @@ def _null_comm():
 COMM_NULL = _NullComm()
 
 
-def install(rank, size, inboxes, sched, hosts):
+def install(rank, size, inboxes, sched, hosts, flags=None):
     """put the stand-in `mpi4py` / `mpi4py.MPI` into sys.modules of THIS process"""
     global _P
-    _P = _ProcState(rank, size, inboxes, sched, hosts)
+    _P = _ProcState(rank, size, inboxes, sched, hosts, flags)
     mpi = types.ModuleType("mpi4py.MPI")
     mpi.COMM_WORLD = ProcComm("w", range(size))
     mpi.COMM_NULL = COMM_NULL
@@ -564,7 +571,7 @@ SELFTEST_EXPECT = {
 # =============================================================================================
 # 3. zygote: forks one process per rank
 # =============================================================================================
-def _rank_main(rank, size, inboxes, job, where):
+def _rank_main(rank, size, inboxes, job, where, flags):
     d = job["dir"]
     log = os.open(os.path.join(d, "rank%d.log" % rank), os.O_WRONLY | os.O_CREAT | os.O_TRUNC, 0o644)
     os.dup2(log, 1)
@@ -583,7 +590,7 @@ def _rank_main(rank, size, inboxes, job, where):
     try:
         assert "yaw" not in sys.modules and "mpi4py" not in sys.modules, "zygote must not import yaw / mpi4py"
         if size > 1:
-            install(rank, size, inboxes, job.get("sched"), job.get("hosts"))
+            install(rank, size, inboxes, job.get("sched"), job.get("hosts"), flags)
         if job.get("selftest"):
             out["results"] = run_selftest(rank, size)
         else:
@@ -623,12 +630,15 @@ def run_world(job):
     os.makedirs(os.path.join(d, "data"))
     inboxes = [mp.Queue() for _ in range(size)] if size > 1 else None
     where = mp.RawArray("i", [-1] * size)
-    procs = [mp.Process(target=_rank_main, args=(r, size, inboxes, job, where)) for r in range(size)]
+    flags = mp.RawArray("l", [0] * (2 * size))
+    procs = [mp.Process(target=_rank_main, args=(r, size, inboxes, job, where, flags)) for r in range(size)]
     t0 = time.time()
     for p in procs:
         p.start()
     limit = float(job.get("timeout", 120.0))
     outcome, first_bad = "ok", None
+    quiet = float(job.get("quiet", 5.0))
+    snap, since = None, t0
     while True:
         alive = [p.is_alive() for p in procs]
         bad = [r for r, p in enumerate(procs) if not alive[r] and p.exitcode != 0]
@@ -643,6 +653,14 @@ def run_world(job):
         if now - t0 > limit:
             outcome = "timeout"
             break
+        # deadlock: every rank that is still there waits on an empty inbox and nothing was received for `quiet` seconds
+        cur = (tuple(alive), tuple(flags))
+        if size > 1 and cur == snap and all(flags[r] == 1 for r in range(size) if alive[r]):
+            if now - since > quiet:
+                outcome = "deadlock"
+                break
+        else:
+            snap, since = cur, now
         time.sleep(0.02)
     stuck = [r for r, p in enumerate(procs) if p.is_alive()]
     for p in procs:
@@ -1182,14 +1200,16 @@ def judge(ctx, sc, w, ref, res, st, report=True):
     def op_at(k):
         return steps[k]["op"] if 0 <= k < len(steps) else "end"
 
-    if res["outcome"] == "timeout":
+    if res["outcome"] in ("timeout", "deadlock"):
         at = {r: v["at"] for r, v in res["ranks"].items()}
         stuck = sorted(int(r) for r, v in res["ranks"].items() if v.get("stuck"))
         k = min([at[str(r)] for r in stuck] or [0])
         found.append(("c06-procworld-%s-hang:%s" % (op_at(k).replace("_", "-"), history_class(steps, k) if k < len(steps) else "end"),
-                      "%d ranks as separate processes, %s (step %d of the history) did not return on ranks %s within %.0f s; "
+                      "%d ranks as separate processes, %s (step %d of the history) did not return on ranks %s (%s); "
                       "step per rank when the world was stopped: %s; the single-process run of the same history ends"
-                      % (size, OP_WHAT[op_at(k)], k, stuck, res.get("wall", 0), json.dumps(at, sort_keys=True)),
+                      % (size, OP_WHAT[op_at(k)], k, stuck,
+                         "deadlock: every rank still there waits in a receive, nothing in flight" if res["outcome"] == "deadlock"
+                         else "stopped after %.0f s" % res.get("wall", 0), json.dumps(at, sort_keys=True)),
                       dict(step=k, stuck_ranks=stuck, step_per_rank=at)))
     elif res["outcome"] != "ok":
         bad = sorted(int(r) for r, v in res["ranks"].items() if v.get("exitcode") not in (0, None) and not v.get("stuck"))
